@@ -1353,11 +1353,13 @@ def rule_exact(env, shared):
     cnt_local = None
     # the fill loop may live in `pull` itself or in a private helper it calls (searched one and two levels down)
     cands = [(pull, ctx)]
-    for (pb, pc) in list(cands):
-        for bi0, t0, c0 in pb.calls():
-            nctx0 = ev.callee_ctx(pc, bi0) if not pb.blocks[bi0]["cleanup"] else None
-            if nctx0 is not None and all(nctx0.body is not x[0] for x in cands) and len(cands) < 8:
-                cands.append((nctx0.body, nctx0))
+    for _lvl in range(3):
+        # (helpers of helpers, and closures of the puller that a helper runs: `iter.with_iter(|it| { .. fill .. })`)
+        for (pb, pc) in list(cands):
+            for bi0, t0, c0 in pb.calls():
+                nctx0 = ev.callee_ctx(pc, bi0) if not pb.blocks[bi0]["cleanup"] else None
+                if nctx0 is not None and all(nctx0.body is not x[0] for x in cands) and len(cands) < 10:
+                    cands.append((nctx0.body, nctx0))
     pull0, ctx0 = pull, ctx
     for (pb, pc) in cands:
         for bi, blk in enumerate(pb.blocks):
